@@ -21,6 +21,9 @@ import (
 type rtCase struct {
 	Tree gen.TreeSpec `json:"-"`
 	Opts packOpts     `json:"opts"`
+	// Rules is the text of the tree's own .terraformignore ("" = none; the
+	// file is part of Tree, this copy is for the reference matcher)
+	Rules string `json:"rules,omitempty"`
 }
 
 func rtCaseDesc(c rtCase, env *fw.Env) map[string]interface{} {
@@ -119,17 +122,21 @@ func runRoundTrip(which string, env *fw.Env, c rtCase) fw.Result {
 	if err != nil {
 		return fw.Result{Verdict: fw.Inconclusive, Msg: "read dst: " + err.Error(), Case: res.Case}
 	}
+	var rules []ref.Rule
+	if c.Rules != "" {
+		rules, _ = ref.ParseRules(c.Rules)
+	}
 	omit := func(p string, n mon.TNode) bool {
 		if specialKind(n.Kind) {
 			return true
 		}
-		if c.Opts.Ignore && n.Kind != "dir" && ref.Excluded(nil, p) {
+		if c.Opts.Ignore && n.Kind != "dir" && ref.Excluded(rules, p) {
 			return true
 		}
 		if c.Opts.Ignore && n.Kind == "dir" {
 			// a directory all of whose content is excluded may or may not
 			// have an entry; directory entries are not judged when excluded
-			if ref.Excluded(nil, p+"/x") {
+			if ref.Excluded(rules, p+"/x") {
 				return true
 			}
 		}
@@ -310,7 +317,35 @@ func rtPhases(which string, unpriv bool) []*fw.Phase {
 			return r
 		},
 	}
-	return []*fw.Phase{random, modes, mtimes, defaults, manyFiles}
+	// trees with a rule file of their own: whatever the rules leave in the
+	// slug comes back, in particular the siblings of an ignored entry
+	ruleFiles := []string{"*.log\n", "*.log\n!keep.log\n", "build/\n", "build/\n!build/keep.txt\n", "/a.log\nz*\n", "c/\n*.tf\n!c/\n"}
+	userRules := &fw.Phase{
+		Name: "trees-with-their-own-rule-file" + suffix, Chroot: true, Unpriv: unpriv, Exhaustive: true,
+		N: func(string) int { return len(ruleFiles) * len(allPackOpts) },
+		Run: func(env *fw.Env, idx int) fw.Result {
+			rules := ruleFiles[idx%len(ruleFiles)]
+			var t gen.TreeSpec
+			add := func(path, kind string, mode uint32, mt int64) {
+				n := gen.NodeSpec{Path: path, Kind: kind, Mode: mode, Mtime: mt}
+				if kind == "file" {
+					n.Content = path
+				}
+				t.Nodes = append(t.Nodes, n)
+			}
+			add(".terraformignore", "file", 0644, 1500000000)
+			t.Nodes[0].Content = rules
+			for i, p := range []string{"a.log", "b.tf", "keep.log", "m.log", "z.tf", "zz/after.tf", "build/out.bin", "build/keep.txt", "c/x.tf", "c/y.log", "d/deep/e.log", "d/deep/f.tf"} {
+				add(p, "file", 0644, 1500000100+int64(i))
+			}
+			for i, p := range []string{"zz", "build", "c", "d", "d/deep", "empty-after"} {
+				add(p, "dir", 0755, 1400000000+int64(i))
+			}
+			t.Nodes = append(t.Nodes, gen.NodeSpec{Path: "l.log", Kind: "link", Target: "b.tf"}, gen.NodeSpec{Path: "y-link", Kind: "link", Target: "z.tf"})
+			return runRoundTrip(which, env, rtCase{Tree: t, Opts: allPackOpts[(idx/len(ruleFiles))%len(allPackOpts)], Rules: rules})
+		},
+	}
+	return []*fw.Phase{random, modes, mtimes, defaults, manyFiles, userRules}
 }
 
 func init() {
